@@ -15,7 +15,11 @@ from nix_manipulator.expressions.binding import (
     same_attr_name,
 )
 from nix_manipulator.expressions.binding_parser import parse_binding_sequence
-from nix_manipulator.expressions.expression import NixExpression, TypedExpression
+from nix_manipulator.expressions.expression import (
+    NixExpression,
+    TypedExpression,
+    shared_render_variant,
+)
 from nix_manipulator.expressions.identifier import Identifier
 from nix_manipulator.expressions.inherit import Inherit
 from nix_manipulator.expressions.layout import empty_line
@@ -233,12 +237,17 @@ def _render_bindings(
         if isinstance(value, _AttrpathEntry):
             before = value.before if value.before is not None else value.binding.before
             after = value.after if value.after is not None else value.binding.after
-            binding = value.binding.model_copy(
-                update={
-                    "name": ".".join(value.segments),
-                    "before": list(before),
-                    "after": list(after),
-                }
+            entry = value
+            binding = shared_render_variant(
+                "attrpath-entry-binding",
+                entry,
+                lambda: entry.binding.model_copy(
+                    update={
+                        "name": ".".join(entry.segments),
+                        "before": list(before),
+                        "after": list(after),
+                    }
+                ),
             )
             rendered.append(binding.rebuild(indent=indent, inline=inline))
             continue
